@@ -176,8 +176,8 @@ def run_cases(out, drv, facts, cases, tag, rng):
 def run(tier, seed, out, drv, facts):
     rng = Rng(seed, "C04")
     thorough = tier == "thorough"
-    run_cases(out, drv, facts, planted_array_cases(rng, 6000 if thorough else 600, thorough), "array", rng)
-    run_cases(out, drv, facts, pytree_cases(rng, 6000 if thorough else 500, thorough), "pytree", rng)
+    run_cases(out, drv, facts, planted_array_cases(rng, 40000 if thorough else 600, thorough), "array", rng)
+    run_cases(out, drv, facts, pytree_cases(rng, 30000 if thorough else 500, thorough), "pytree", rng)
 
 
 def replay(rep, out, drv, facts):
